@@ -53,7 +53,11 @@ func applyUnifiedDiff(repo string, diff string) (map[string][]byte, error) {
 			}
 			pos := -1
 			want := h.oldStart - 1 + offset
-			for _, d := range []int{0, 1, -1, 2, -2, 3, -3, 5, -5, 8, -8, 12, -12, 20, -20, 40, -40} {
+			for k := 0; k <= 600 && pos < 0; k++ {
+				d := (k + 1) / 2
+				if k%2 == 0 {
+					d = -d
+				}
 				p := want + d
 				if p < 0 || p+len(oldSeg) > len(lines) {
 					continue
